@@ -1102,6 +1102,55 @@ pub proof fn lemma_tpos_distinct(rv: Seq<usize>, j1: int, j2: int, sm: int)
         }
 //@end
 
+//@fn file=src/solver/core/kktsolvers/direct/quasidef/kkt_assembly.rs name=_kkt_assemble_colcounts as=kkt_count_tril_arm rules=R1 from=@arm to="MatrixTriangle::Tril#1" header="fn _kkt_assemble_colcounts<T: FloatT>(K: &mut CscMatrix<T>, P: &CscMatrix<T>, A: &CscMatrix<T>, n: usize)"
+//@contract
+    requires
+        P.colptr_ok_u(), A.colptr_ok_u(), P.n == n, P.m == n, A.n == n, old(K).colptr@.len() > n, old(K).colptr@.len() <= usize::MAX,
+        forall|k: int| 0 <= k < P.rowval@.len() ==> #[trigger] P.rowval@[k] < n,
+        P.rowval@.len() + A.rowval@.len() + 1 <= usize::MAX,
+        // the counting pass starts from zero counts (K.colptr.fill(0))
+        forall|c: int| 0 <= c < old(K).colptr@.len() ==> #[trigger] old(K).colptr@[c] == 0,
+    ensures
+        final(K).colptr@.len() == old(K).colptr@.len(), final(K).rowval@ == old(K).rowval@, final(K).nzval@ == old(K).nzval@,
+        // C11 (lower layout): column c < n is counted with one for a missing diagonal entry, the entries of row c of P (P transposed)
+        // and the entries of column c of A below them; nothing is counted elsewhere
+        forall|c: int| 0 <= c < n ==> #[trigger] final(K).colptr@[c] == mdn(*P, c) + prow(*P, c) + pcnt(*A, c),
+        forall|c: int| n <= c < old(K).colptr@.len() ==> #[trigger] final(K).colptr@[c] == 0,
+//@pre
+        let ghost gn = n as int;
+        proof {
+            assert forall|i: int| 0 <= i < P.n implies P.colptr@[i] <= #[trigger] P.colptr@[i + 1] <= P.rowval@.len() by { assert(P.colptr@[i + 1] <= P.colptr@[P.n as int]); }
+            assert forall|i: int| 0 <= i < A.n implies A.colptr@[i] <= #[trigger] A.colptr@[i + 1] by { }
+        }
+//@after_stmt 1
+        let ghost K1 = *K;
+        proof {
+            assert forall|c: int| 0 <= c < gn implies #[trigger] K1.colptr@[c] == mdn(*P, c) by { assert(K1.colptr@[c + 0] == 0 + mdn(*P, c)); }
+            assert forall|c: int| gn <= c < K1.colptr@.len() implies #[trigger] K1.colptr@[c] == 0 by { }
+            assert forall|c: int| 0 <= c < K1.colptr@.len() implies K1.colptr@[c] + P.rowval@.len() <= usize::MAX by { if c < gn { assert(K1.colptr@[c] == mdn(*P, c)); } }
+        }
+//@after_stmt 2
+        let ghost K2 = *K;
+        proof {
+            assert forall|c: int| 0 <= c < gn implies #[trigger] K2.colptr@[c] == mdn(*P, c) + prow(*P, c) by { assert(K2.colptr@[c] == K1.colptr@[c] + count_row(P.rowval@, c - 0, P.rowval@.len() as int)); }
+            assert forall|c: int| gn <= c < K2.colptr@.len() implies #[trigger] K2.colptr@[c] == 0 by {
+                assert(K1.colptr@[c] == 0);
+                lemma_count_row_absent(P.rowval@, c - 0, P.rowval@.len() as int);
+            }
+            assert forall|i: int| 0 <= i < A.n implies #[trigger] K2.colptr@[0 + i] + A.colptr@[A.n as int] <= usize::MAX by {
+                assert(K2.colptr@[i] == mdn(*P, i) + prow(*P, i));
+                lemma_count_row_le(P.rowval@, i, P.rowval@.len() as int);
+            }
+        }
+//@after_stmt 3
+        proof {
+            assert forall|c: int| 0 <= c < gn implies #[trigger] K.colptr@[c] == mdn(*P, c) + prow(*P, c) + pcnt(*A, c) by {
+                assert(K.colptr@[0 + c] == K2.colptr@[0 + c] + (A.colptr@[c + 1] - A.colptr@[c]));
+            }
+            assert forall|c: int| gn <= c < K.colptr@.len() implies #[trigger] K.colptr@[c] == 0 by { assert(K2.colptr@[c] == 0); }
+        }
+//@end
+
 //@fn file=src/qdldl/qdldl.rs name=_permute_symmetric_inner rules=R1,R18,zipidx:3=mi
 //@contract
     requires
@@ -2444,6 +2493,32 @@ pub open spec fn kkt_tril_pre(K: CscMatrix<F>, P: CscMatrix<F>, A: CscMatrix<F>,
     &&& forall|c: int, k: int| #[trigger] P.in_col_u(k, c) && k + 1 < P.colptr@[c + 1] ==> P.rowval@[k] < P.rowval@[k + 1]
     &&& forall|c: int| 0 <= c < n ==> #[trigger] sp_tril(K, P, A, c)
     &&& K.colptr@[n] <= K.rowval@.len()
+}
+// from counts to cursors, lower layout (the counterpart of lemma_counts_give_triu_pre)
+#[verifier::spinoff_prover]
+pub proof fn lemma_counts_give_tril_pre(Kc: CscMatrix<F>, Kp: CscMatrix<F>, P: CscMatrix<F>, A: CscMatrix<F>, n: int)
+    requires
+        P.colptr_ok_u(), A.colptr_ok_u(), P.n == n, P.m == n, A.n == n, Kc.colptr@.len() > n, Kc.colptr@.len() <= usize::MAX, n + A.m <= usize::MAX,
+        Kp.arrays_ok(), Kp.rowval@.len() <= usize::MAX,
+        forall|k: int| 0 <= k < A.rowval@.len() ==> #[trigger] A.rowval@[k] < A.m,
+        forall|k: int| 0 <= k < P.rowval@.len() ==> #[trigger] P.rowval@[k] < n,
+        // P is upper triangular with strictly increasing rows in every column (what the constructor hands over)
+        forall|c: int, k: int| #[trigger] P.in_col_u(k, c) ==> P.rowval@[k] <= c,
+        forall|c: int, k: int| #[trigger] P.in_col_u(k, c) && k + 1 < P.colptr@[c + 1] ==> P.rowval@[k] < P.rowval@[k + 1],
+        // counts at the end of the counting pass: at least what the P / A arm counted
+        forall|c: int| 0 <= c < n ==> #[trigger] Kc.colptr@[c] >= mdn(P, c) + prow(P, c) + pcnt(A, c),
+        // colcount_to_colptr (its contract) and an allocation that covers the total count
+        Kp.colptr@.len() == Kc.colptr@.len(),
+        forall|c: int| 0 <= c < Kc.colptr@.len() ==> #[trigger] Kp.colptr@[c] == sum_upto(Kc.colptr@, c),
+        sum_upto(Kc.colptr@, Kc.colptr@.len() as int) <= Kp.rowval@.len(),
+    ensures kkt_tril_pre(Kp, P, A, n),
+{
+    assert forall|c: int| 0 <= c < n implies #[trigger] sp_tril(Kp, P, A, c) by {
+        assert(sum_upto(Kc.colptr@, c + 1) == sum_upto(Kc.colptr@, c) + Kc.colptr@[c]);
+        assert(Kp.colptr@[c] == sum_upto(Kc.colptr@, c)); assert(Kp.colptr@[c + 1] == sum_upto(Kc.colptr@, c + 1));
+    }
+    lemma_sum_mono(Kc.colptr@, n, Kc.colptr@.len() as int);
+    assert(Kp.colptr@[n] == sum_upto(Kc.colptr@, n));
 }
 pub open spec fn ptpos(K0: CscMatrix<F>, P: CscMatrix<F>, j: int) -> int { K0.colptr@[P.rowval@[j] as int] + mdn(P, P.rowval@[j] as int) + count_row(P.rowval@, P.rowval@[j] as int, j) }
 pub open spec fn kkt_tril_mid(K0: CscMatrix<F>, K2: CscMatrix<F>, P: CscMatrix<F>, n: int, mapP: Seq<usize>) -> bool {
